@@ -34,6 +34,12 @@ UNITS = ["", "m", "km", "mm"]
 
 
 def generate(tape, tier="quick"):
+    if tape.chance(1, 12):
+        # real SimplexNoise generators (pull-based, one process-wide noise library behind them) with different seeds,
+        # optionally merged by the real WeightedSum: every consumer's series is the same under every order and equals
+        # what its generator delivers alone (sim/library.py, engine N)
+        from ..library import gen_noise
+        return gen_noise(tape)
     if tape.chance(1, 5):
         # delay-resolved rings (also with initial data travelling around the ring during connect, and unresolved
         # rings): the outcome - success or the circular-coupling error - must not depend on the order either
@@ -135,6 +141,9 @@ def outcome(r):
 
 
 def execute(sc):
+    if sc.get("engine") == "N":
+        from ..library import run_noise
+        return run_noise(sc)
     viol = []
     vc = not sc.get("conv") and not sc.get("fault")
     base = run_e1(sc, value_check=vc)
@@ -179,4 +188,11 @@ def execute(sc):
 
 
 def known_sig(sc, v):
+    if sc.get("engine") == "N":
+        # recorded finding: a generator that leaves the time of its output unset, read by the merger's input (no time
+        # either) AND by a timed consumer - the first target to exchange decides between success and this error
+        if sc.get("wsum") and not sc.get("declare_time", True) and "Can't set property `time`" in v.get("msg", "") and \
+                v["oracle"] in ("order-outcome-differs", "lib-run-raises"):
+            return "unset-time-fanout-first-target-decides"
+        return None
     return e1_known_sig(sc, v)
